@@ -419,6 +419,10 @@ pub fn gen_conn_ep(r: &mut Rng, id: u64, kind: Kind, base: u64, ep: Option<Endpo
         // IP options come and go between the packets of the connection
         s.v4_opt_alt = true;
     }
+    if r.chance(1, 6) {
+        // Ethernet minimum-frame padding (and, half of the time, a captured FCS) after the IP datagram
+        s.eth_trailer = 1 + r.below(2) as u8;
+    }
     let tsc = r.u32();
     let tss = r.u32();
     let with_ts = r.chance(2, 3);
